@@ -8,7 +8,7 @@
    fitness_t::operator< (proved for the real type by C18).  Only statements
    here; proofs in Evo/EvoProofs.v, Evo/EvoMain.v. *)
 From Coq Require Import ZArith List Bool Arith.
-From VV Require Import Evo.EvoDefs Evo.EvoProofs Evo.EvoMain Evo.TuneDefs Evo.TuneProofs Evo.Tune2Proofs.
+From VV Require Import Evo.EvoDefs Evo.EvoProofs Evo.EvoMain Evo.EvoProgress Evo.TuneDefs Evo.TuneProofs Evo.Tune2Proofs.
 Import ListNotations.
 Local Open Scope Z_scope.
 
@@ -91,6 +91,67 @@ Theorem C06_elitism_keeps_max : forall F (flt : F -> F -> bool), strict_weak_ord
   forall x, In x (all_members (pop s)) -> exists y, In y (all_members (pop s')) /\ flt (fit y) (fit x) = false.
 Proof. exact main_elitism_keeps_max. Qed.
 Print Assumptions C06_elitism_keeps_max.
+
+(* ---- progress: on valid inputs the operators never get stuck ---- *)
+(* every draw stream within the contracts of random::sup / random::ring makes
+   the tournament selection succeed (every pick exists) *)
+Theorem C06_progress_tournament_select : forall F (flt : F -> F -> bool) e (p : population F) tgt rs ly,
+  nth_error p (fst tgt) = Some ly -> (snd tgt < length (members ly))%nat ->
+  length rs = e_tournament e ->
+  forallb (ring_draw_ok (e_mate_zone e) (Z.of_nat (length (members ly)))) rs = true ->
+  exists cs, tournament_select flt e p tgt rs = Some cs.
+Proof. exact tournament_select_total. Qed.
+Print Assumptions C06_progress_tournament_select.
+
+Theorem C06_progress_alps_select : forall F (flt : F -> F -> bool) e (p : population F) layer pk0 pk1 pks,
+  (layer < length p)%nat -> length pks = e_tournament e ->
+  pick_draw_ok F p layer P1 pk0 -> pick_draw_ok F p layer P1 pk1 ->
+  (forall pk, In pk pks -> pick_draw_ok F p layer (e_p_same e) pk) ->
+  exists cs, alps_select flt e p layer pk0 pk1 pks = Some cs.
+Proof. exact alps_select_total. Qed.
+Print Assumptions C06_progress_alps_select.
+
+(* a whole iteration of the inner loop under std_es, from ANY state satisfying
+   the invariant, for ALL valid draws and every offspring that honours the
+   contract of recombination::base::run *)
+Theorem C06_progress_step_std : forall F (flt : F -> F -> bool) e (s : state F) ti rs k o,
+  e_strat e = Std -> (1 <= e_tournament e)%nat -> Inv F e s ->
+  (ti < e_individuals e)%nat -> length rs = e_tournament e ->
+  forallb (ring_draw_ok (e_mate_zone e) (Z.of_nat (e_individuals e))) rs = true ->
+  (forall r1 x1 x2 parents, tournament_select flt e (pop s) (O, ti) rs = Some parents ->
+     hd_error parents = Some r1 -> get (pop s) r1 = Some x1 -> get (pop s) (second parents r1) = Some x2 ->
+     base_offspring_ok F e x1 x2 k o) ->
+  exists s', step_ok flt e s (EStep (SelTournament (O, ti) rs) (RecBase k) o []) = Some s'.
+Proof. exact step_progress_std. Qed.
+Print Assumptions C06_progress_step_std.
+
+Theorem C06_progress_step_de : forall F (flt : F -> F -> bool) e (s : state F) (cs : list coord) va vb,
+  e_strat e = De -> (1 <= e_tournament e)%nat -> Inv F e s ->
+  length cs = e_tournament e -> (forall c, In c cs -> fst c = O /\ (snd c < e_individuals e)%nat) ->
+  ring_draw_ok (e_mate_zone e) (Z.of_nat (e_individuals e)) va = true ->
+  ring_draw_ok (e_mate_zone e) (Z.of_nat (e_individuals e)) vb = true ->
+  exists a_age, forall o : ind F, age o = a_age ->
+    exists s', step_ok flt e s (EStep (SelRandom cs) (RecDe va vb) o []) = Some s'.
+Proof. exact step_progress_de. Qed.
+Print Assumptions C06_progress_step_de.
+
+Theorem C06_progress_aftergen_std_de : forall F (flt : F -> F -> bool) e (s : state F), is_alps e = false ->
+  exists s', step_ok flt e s (EAfterGen (mkAg [] [] (AgNone F))) = Some s'.
+Proof. exact aftergen_progress_std_de. Qed.
+Print Assumptions C06_progress_aftergen_std_de.
+
+(* FULL statement wanted: try_add_to_layer succeeds for every draw stream in
+   which each draw is below the size of the layer being sampled at that moment.
+   Proved (partial in the draws only): for streams whose draws are below the size
+   of EVERY layer; termination within (layers - layer) recursive calls and the
+   absence of any out-of-range layer/member access are established in full. *)
+Theorem C06_progress_try_add_partial : forall F (flt : F -> F -> bool) fuel e (p : population F) layer inc ds,
+  PL F p -> (layer < length p)%nat -> (length p - layer <= fuel)%nat ->
+  (forall d ly, In d ds -> In ly p -> (d < length (members ly))%nat) ->
+  (S (e_tournament e) * (length p - layer) <= length ds)%nat ->
+  exists r, try_add flt fuel e p layer inc ds = Some r.
+Proof. exact try_add_total_partial. Qed.
+Print Assumptions C06_progress_try_add_partial.
 
 (* ---- parameter tuning (model of the repaired src_search: typeid of the object) ---- *)
 Theorem C06_tune_fills_every_open_parameter : forall (ln_floor cube_log2 : Z -> Z),
